@@ -273,39 +273,55 @@ def probe_inputs(ctx, rng):
     def names(objs):
         return [f"{type(o).__name__}@{getattr(o, 'idx', getattr(o, 'tag', '?'))}" if o is not None else None for o in objs]
 
-    # Vertex(links=, universes=, attributes=)
-    def b_vertex():
-        vs, us, ls = fresh()
-        L, U, A = [ls[0], ls[1]], [us[0], us[1]], {"idx": 7, "color": "red"}
-        v = Vertex(links=L, universes=U, attributes=A)
-        return (v, us), [("links", L), ("universes", U), ("attributes", A)]
+    # Vertex(links=, universes=, attributes=) -- container sizes 0..3 (a one-element list is not a two-element list)
+    def b_vertex(nl, nu):
+        def build():
+            vs, us, ls = fresh()
+            us.append(Universe())
+            ls.append(DirectedEdge(vs[2], vs[3]))
+            L, U, A = ls[:nl], us[:nu], {"idx": 7, "color": "red"}
+            v = Vertex(links=L, universes=U, attributes=A)
+            return (v, us), [("links", L), ("universes", U), ("attributes", A)]
+
+        return build
 
     def r_vertex(o):
         v, us = o
         return (names(v.links), len(v.universes), [len(u.vertices) for u in us], getattr(v, "color", None),
                 sorted(k for k in vars(v) if not k.startswith("_")))
 
-    check("Vertex", b_vertex, lambda: [("links", None, ["append", "clear", "reverse", "pop"]),
-                                       ("universes", None, ["append", "clear", "pop"]),
-                                       ("attributes", None, ["dset", "dclear"])], r_vertex)
+    for nl in range(4):
+        for nu in range(4):
+            check(f"Vertex[{nl} links,{nu} universes]".replace(f"[{nl} links,{nu} universes]", ""), b_vertex(nl, nu),
+                  lambda: [("links", None, ["append", "clear", "reverse", "pop", "insert"]),
+                           ("universes", None, ["append", "clear", "pop", "insert"]),
+                           ("attributes", None, ["dset", "dclear"])], r_vertex)
 
     # Universe(vertices=)
-    def b_uni():
-        vs, us, ls = fresh()
-        VS = [vs[0], vs[1], vs[2]]
-        return Universe(vertices=VS), [("vertices", VS)]
+    def b_uni(n):
+        def build():
+            vs, us, ls = fresh()
+            VS = vs[:n]
+            return Universe(vertices=VS), [("vertices", VS)]
 
-    check("Universe", b_uni, lambda: [("vertices", None, ["append", "clear", "reverse", "pop", "setitem"])],
-          lambda u: names(u.vertices))
+        return build
+
+    for n in range(4):
+        check("Universe", b_uni(n), lambda: [("vertices", None, ["append", "clear", "reverse", "pop", "setitem", "insert"])],
+              lambda u: names(u.vertices))
 
     # Link(vertices=)
-    def b_link():
-        vs, us, ls = fresh()
-        VS = [vs[0], vs[1], vs[0]]
-        return zoo.MultiLink(vertices=VS), [("vertices", VS)]
+    def b_link(n):
+        def build():
+            vs, us, ls = fresh()
+            VS = ([vs[0], vs[1], vs[0]] + vs)[:n]
+            return zoo.MultiLink(vertices=VS), [("vertices", VS)]
 
-    check("Link", b_link, lambda: [("vertices", None, ["append", "clear", "reverse", "pop", "setitem"])],
-          lambda l: names(l.vertices))
+        return build
+
+    for n in range(5):
+        check("Link", b_link(n), lambda: [("vertices", None, ["append", "clear", "reverse", "pop", "setitem", "insert"])],
+              lambda l: names(l.vertices))
 
     # UniverseLaws(edge_whitelist=)
     def b_laws():
